@@ -527,7 +527,10 @@ impl DecodeBeatmap for Beatmap {
             .zip(split.next())
             .ok_or(ParseBeatmapError::InvalidTimingPointLine)?;
 
-        let time = time.parse_num::<f64>()?;
+        // Adding zero turns `-0.0` into `0.0`. Control points are ordered by
+        // `total_cmp` which distinguishes the two, so a line at `-0` and a
+        // line at `0` would end up as two points at the same time.
+        let time = time.parse_num::<f64>()? + 0.0;
 
         // Manual `str::parse_num::<f64>` so that NaN does not cause an error
         let beat_len = beat_len
